@@ -520,6 +520,23 @@ def stepProvCore (d : ProvDrv) (a : Acc) (s : Step) : ProvDrv × Acc :=
       let a := a.cmp s.lineNo "recvslash.effects" effM ((s.ob "r").get "effects")
       let a := a.cmp s.lineNo "recvslash.meter" (toString r.2.1.meter) (after.g.get "meter")
       let a := if !r.2.2.1.isEmpty then { (a.tag "slash-jailed") with nontrivial := a.nontrivial + 1 } else a
+      let a := if ackM == "res2" && r.2.2.1.isEmpty then
+          match st.chan2c.find? (·.1 == s.op.get "ch") with
+          | none => a
+          | some e =>
+            let x := st.get e.2
+            let v := providerOf x p.key
+            if x.phase != .launched then a.tag "slash-declined-not-launched"
+            else if !(x.valset.any (·.v == v)) then a.tag "slash-declined-not-in-set"
+            else match st.stk.find? (·.id == v) with
+              | none => a.tag "slash-declined-no-validator"
+              | some rr => if rr.jailed then a.tag "slash-declined-already-jailed"
+                           else if rr.tomb then a.tag "slash-declined-tombstoned"
+                           else if rr.status == 1 then a.tag "slash-declined-unbonded" else a.tag "slash-declined-other"
+        else a
+      let a := if r.2.2.1.any (fun e => match e with
+          | .jail v => (st.stk.find? (·.id == v)).any (·.status == 2)
+          | _ => false) then a.tag "slash-jailed-unbonding-validator" else a
       let a := after.cs.foldl (fun a e => a.cmp s.lineNo s!"c{e.1}.acks" (fmtNatList (r.1.get e.1).acks) (e.2.get "acks")) a
       -- Spec.Slash on the IMPLEMENTATION's observations
       let implEff : List StkEffect := (splitNE ((s.ob "r").get "effects") "|").filterMap fun t =>
